@@ -76,5 +76,9 @@ func (c *MustacheTokenizer) ReadNextToken() *tokenizers.Token {
 	if token != nil && (token.Value() == "}}" || token.Value() == "}}}") {
 		c.special = true
 	}
+	// An Unknown token inside a tag must not be mistaken for a freshly assigned reader
+	if c.LastTokenType == tokenizers.Unknown {
+		c.LastTokenType = tokenizers.Special
+	}
 	return token
 }
